@@ -7,11 +7,21 @@ use signalo_filters::wavelet::Decomposition;
 pub enum Val {
     Q(Q),
     NaN,
+    /// bit pattern of an f64 (`x` + 16 hex digits on the protocol)
+    F64(u64),
+    /// bit pattern of an f32 (`y` + 8 hex digits)
+    F32(u32),
 }
 
 pub fn parse_val(s: &str) -> Val {
     if s == "nan" {
         return Val::NaN;
+    }
+    if s.len() == 17 && s.starts_with('x') {
+        return Val::F64(u64::from_str_radix(&s[1..], 16).expect("bad f64 bits"));
+    }
+    if s.len() == 9 && s.starts_with('y') {
+        return Val::F32(u32::from_str_radix(&s[1..], 16).expect("bad f32 bits"));
     }
     if let Some((n, d)) = s.split_once('/') {
         Val::Q(Q::new(n.parse().expect("bad numerator"), d.parse().expect("bad denominator")))
@@ -40,7 +50,7 @@ impl FromVal for Q {
     fn from_val(v: Val) -> Q {
         match v {
             Val::Q(q) => q,
-            Val::NaN => panic!("harness: nan fed to an exact-rational instance"),
+            _ => panic!("harness: non-rational value fed to an exact-rational instance"),
         }
     }
 }
@@ -49,14 +59,47 @@ impl FromVal for f64 {
         match v {
             Val::Q(q) => q.to_f64_exact(),
             Val::NaN => f64::NAN,
+            Val::F64(b) => f64::from_bits(b),
+            Val::F32(_) => panic!("harness: f32 bits fed to an f64 instance"),
         }
     }
+}
+impl FromVal for f32 {
+    fn from_val(v: Val) -> f32 {
+        match v {
+            Val::F32(b) => f32::from_bits(b),
+            _ => panic!("harness: f32 instances take bit patterns"),
+        }
+    }
+}
+/// bit-pattern rendering of float outputs
+pub trait Bits {
+    fn bits(&self) -> String;
+}
+impl Bits for f64 {
+    fn bits(&self) -> String {
+        format!("x{:016x}", self.to_bits())
+    }
+}
+impl Bits for f32 {
+    fn bits(&self) -> String {
+        format!("y{:08x}", self.to_bits())
+    }
+}
+impl<T: Bits> Bits for Decomposition<T> {
+    fn bits(&self) -> String {
+        format!("{} {}", self.low.bits(), self.high.bits())
+    }
+}
+pub fn bits_list<'a, T: Bits + 'a, I: Iterator<Item = &'a T>>(it: I) -> String {
+    let v: Vec<String> = it.map(|x| x.bits()).collect();
+    if v.is_empty() { "-".to_string() } else { v.join(" ") }
 }
 impl FromVal for i64 {
     fn from_val(v: Val) -> i64 {
         match v {
             Val::Q(q) => q.to_i64_exact(),
-            Val::NaN => panic!("harness: nan fed to an integer instance"),
+            _ => panic!("harness: non-rational value fed to an integer instance"),
         }
     }
 }
@@ -81,7 +124,7 @@ macro_rules! from_args_single {
         }
     )*};
 }
-from_args_single!(Q, f64, i64, Slope);
+from_args_single!(Q, f64, f32, i64, Slope);
 
 impl<T: FromVal> FromArgs for (T, T) {
     fn from_args(a: &[Val]) -> Self {
